@@ -394,7 +394,7 @@ func c04IsEffect(call ssa.CallInstruction) bool {
 
 func c04R3(c *Ctx) {
 	const R = "C04.R3.limiter-per-call"
-	c.Expect(R, 3)
+	c.Expect(R, 2) // one creation point (both copy entry points may share a constructor) + the traversal's dispatch
 	conc := c01FieldOf(c.P, "", "CopyGraphOptions", "Concurrency")
 	if conc == nil {
 		c.LostAnchor(R, "~.CopyGraphOptions.Concurrency")
@@ -584,14 +584,12 @@ func c04R3(c *Ctx) {
 		// the limiters the graph copy dispatches the traversal with
 		var initial []ssa.Value
 		for g := range graphFns {
-			for _, gc := range CallsTo(g, nGo) {
-				if fn, _ := c01FuncOfValue(gc.Common().Args[2]); fn == tr.Entry {
-					initial = append(initial, gc.Common().Args[1])
-				}
+			for _, d := range c01DispatchCalls(g, tr.Entry) {
+				initial = append(initial, d.Limiter)
 			}
 		}
-		for _, g := range CallsTo(T, nGo) {
-			arg := g.Common().Args[1]
+		for _, d := range c01DispatchCalls(T, tr.Entry) {
+			arg := d.Limiter
 			srcs, carried := c01CarriedSources(c.P, arg)
 			if !carried {
 				ok, why = false, "the traversal dispatches successors with a limiter that is not state carried from the enclosing copy call"
@@ -644,14 +642,73 @@ func c04R3(c *Ctx) {
 // result of a module function (positiveOr(v, def)) each of whose results is a
 // positive constant, a parameter returned under a positive test of it, or a
 // parameter whose argument at this call is itself certainly positive.
-func c04CertainPositive(v ssa.Value, depth int) bool {
+func c04CertainPositive(v ssa.Value, depth int) bool { return c04Positive(v, nil, depth, true) }
+
+// c04Positive: v >= 1 (strict) or v >= 0 (!strict) whatever the inputs.  bind maps the parameters of the helper being
+// summarised to the arguments at the call under consideration.
+func c04Positive(v ssa.Value, bind map[*ssa.Parameter]ssa.Value, depth int, strict bool) bool {
 	v = strip(v)
+	if depth > 4 {
+		return false
+	}
 	if k, ok := constInt(v); ok {
-		return k >= 1
+		return k >= 1 || (!strict && k >= 0)
+	}
+	if prm, isParam := v.(*ssa.Parameter); isParam {
+		if a, ok := bind[prm]; ok {
+			return c04Positive(a, nil, depth+1, strict)
+		}
+		return false
 	}
 	call, ok := v.(*ssa.Call)
-	if !ok || depth > 2 {
+	if !ok {
 		return false
+	}
+	switch CalleeName(call) {
+	case "builtin:max":
+		// max(x, c): at least the largest constant operand
+		for _, a := range call.Call.Args {
+			if c04Positive(a, bind, depth+1, strict) {
+				return true
+			}
+		}
+		return false
+	case "cmp.Or":
+		// first non-zero operand: positive when every operand is >= 0 and the last one is >= 1
+		if len(call.Call.Args) != 1 {
+			return false
+		}
+		sl, isSl := call.Call.Args[0].(*ssa.Slice)
+		if !isSl {
+			return false
+		}
+		arr, isArr := sl.X.(*ssa.Alloc)
+		if !isArr {
+			return false
+		}
+		elems := map[int64]ssa.Value{}
+		for _, r := range *arr.Referrers() {
+			if ia, isIA := r.(*ssa.IndexAddr); isIA {
+				if k, isK := constInt(ia.Index); isK {
+					for _, r2 := range *ia.Referrers() {
+						if st, isSt := r2.(*ssa.Store); isSt && st.Addr == ssa.Value(ia) {
+							elems[k] = st.Val
+						}
+					}
+				}
+			}
+		}
+		n := int64(len(elems))
+		if n == 0 {
+			return false
+		}
+		for k := int64(0); k < n; k++ {
+			e, okE := elems[k]
+			if !okE || !c04Positive(e, bind, depth+1, false) {
+				return false
+			}
+		}
+		return !strict || c04Positive(elems[n-1], bind, depth+1, true)
 	}
 	h := StaticCallee(call)
 	if h == nil || !inModule(h) || len(h.Blocks) == 0 || h.Signature.Results().Len() != 1 {
@@ -661,50 +718,45 @@ func c04CertainPositive(v ssa.Value, depth int) bool {
 	if len(atoms) == 0 {
 		return false
 	}
+	hb := map[*ssa.Parameter]ssa.Value{}
+	for i, q := range h.Params {
+		if i < len(call.Call.Args) {
+			a := call.Call.Args[i]
+			if pa, isP := strip(a).(*ssa.Parameter); isP && bind != nil {
+				if b, okB := bind[pa]; okB {
+					a = b
+				}
+			}
+			hb[q] = a
+		}
+	}
 	for _, a := range atoms {
 		av := strip(a.Val)
-		if k, isK := constInt(av); isK {
-			if k < 1 {
-				return false
+		if prm, isParam := av.(*ssa.Parameter); isParam && strict {
+			// returned under a positive test of the parameter?
+			pos := newCut()
+			for _, i := range Ifs(h) {
+				cond, t, f := ifEdges(i)
+				bo, isBo := cond.(*ssa.BinOp)
+				if !isBo || strip(bo.X) != ssa.Value(prm) {
+					continue
+				}
+				k, isK := constInt(bo.Y)
+				if !isK {
+					continue
+				}
+				switch {
+				case bo.Op == token.LEQ && k == 0, bo.Op == token.LSS && k == 1:
+					pos.Edges(f)
+				case bo.Op == token.GTR && k == 0, bo.Op == token.GEQ && k == 1:
+					pos.Edges(t)
+				}
 			}
-			continue
-		}
-		prm, isParam := av.(*ssa.Parameter)
-		if !isParam {
-			return false
-		}
-		idx := -1
-		for i, q := range h.Params {
-			if q == prm {
-				idx = i
-			}
-		}
-		if idx < 0 || idx >= len(call.Call.Args) {
-			return false
-		}
-		// returned under a positive test of the parameter?
-		pos := newCut()
-		for _, i := range Ifs(h) {
-			cond, t, f := ifEdges(i)
-			bo, isBo := cond.(*ssa.BinOp)
-			if !isBo || strip(bo.X) != ssa.Value(prm) {
+			if len(pos.edges) > 0 && AtomMustPass(a, pos) {
 				continue
 			}
-			k, isK := constInt(bo.Y)
-			if !isK {
-				continue
-			}
-			switch {
-			case bo.Op == token.LEQ && k == 0, bo.Op == token.LSS && k == 1:
-				pos.Edges(f)
-			case bo.Op == token.GTR && k == 0, bo.Op == token.GEQ && k == 1:
-				pos.Edges(t)
-			}
 		}
-		if len(pos.edges) > 0 && AtomMustPass(a, pos) {
-			continue
-		}
-		if !c04CertainPositive(call.Call.Args[idx], depth+1) {
+		if !c04Positive(av, hb, depth+1, strict) {
 			return false
 		}
 	}
@@ -723,6 +775,53 @@ const (
 	nPush    = "(~/content.Pusher).Push"
 	nMount   = "(~/registry.Mounter).Mount"
 )
+
+// c04Closures: the function values created in f (and its closures): closure literals and bound method values.
+func c04Closures(f *ssa.Function) []*ssa.Function {
+	seen := map[*ssa.Function]bool{}
+	var out []*ssa.Function
+	var scan func(g *ssa.Function)
+	scan = func(g *ssa.Function) {
+		AllInstrs(g, func(in ssa.Instruction) {
+			if mc, ok := in.(*ssa.MakeClosure); ok {
+				if fn := mc.Fn.(*ssa.Function); !seen[fn] {
+					seen[fn] = true
+					out = append(out, fn)
+					if fn.Synthetic == "" {
+						scan(fn)
+					}
+				}
+			}
+		})
+	}
+	scan(f)
+	for _, a := range Anons(f) {
+		if !seen[a] {
+			seen[a] = true
+			out = append(out, a)
+		}
+	}
+	return out
+}
+
+// c04IIFESites: calls in f of a function literal defined in f (immediately invoked, or via a local) whose body
+// contains exactly one call of `name`.
+func c04IIFESites(f *ssa.Function, name string) []ssa.CallInstruction {
+	var out []ssa.CallInstruction
+	for _, call := range Calls(f, func(string) bool { return true }) {
+		if _, isDefer := call.(*ssa.Defer); isDefer {
+			continue
+		}
+		g := StaticCallee(call)
+		if g == nil || g.Parent() != f {
+			continue
+		}
+		if len(CallsTo(g, name)) == 1 {
+			out = append(out, call)
+		}
+	}
+	return out
+}
 
 func c04Instrs(cs []ssa.CallInstruction) []ssa.Instruction {
 	var out []ssa.Instruction
@@ -829,19 +928,21 @@ func c04R4(c *Ctx) {
 	}
 	// roles
 	var doCopy, copyNode, mountFn *ssa.Function
+	var xferViaHelper []ssa.CallInstruction
+	_ = xferViaHelper
 	for _, f := range c.P.FuncsOfPkg("") {
 		hasIn := func(name string) bool {
 			if len(CallsTo(f, name)) > 0 {
 				return true
 			}
-			for _, a := range Anons(f) {
+			for _, a := range c04Closures(f) {
 				if len(CallsTo(a, name)) > 0 {
 					return true
 				}
 			}
 			return false
 		}
-		// fetches and pushes itself, or in closures it hands to a transfer helper
+		// fetches and pushes itself, or in closures / bound method values it hands to a transfer helper
 		if f.Parent() == nil && hasIn(nFetch) && hasIn(nPush) {
 			if doCopy != nil {
 				c.Undecided(R, "roles|transfer", f.Pos(), "more than one function fetches and pushes directly: "+FnName(doCopy)+", "+FnName(f))
@@ -899,6 +1000,29 @@ func c04R4(c *Ctx) {
 		pres, posts, xfers := sitesOf(F, pre), sitesOf(F, post), isCallTo(doCopy)(F)
 		if inlined {
 			xfers = CallsTo(F, nPush)
+			if len(xfers) == 0 {
+				xfers = c04IIFESites(F, nPush)
+			}
+			if len(xfers) == 0 {
+				// the push happens in a closure handed to a transfer helper: that call is the transfer
+				pushers := map[*ssa.Function]bool{}
+				for _, cl := range c04Closures(F) {
+					if len(CallsTo(cl, nPush)) > 0 {
+						pushers[cl] = true
+					}
+				}
+				for _, call := range Calls(F, func(string) bool { return true }) {
+					if h := StaticCallee(call); h != nil && inModule(h) {
+						for _, a := range call.Common().Args {
+							for _, r := range Roots(a) {
+								if mc, isMC := r.(*ssa.MakeClosure); isMC && pushers[mc.Fn.(*ssa.Function)] {
+									xfers = append(xfers, call)
+								}
+							}
+						}
+					}
+				}
+			}
 		}
 		preNil, postNil := c04NilEdgesOfField(F, pre), c04NilEdgesOfField(F, post)
 		ok := true
@@ -969,13 +1093,19 @@ func c04R4(c *Ctx) {
 		F := doCopy
 		fn := FnName(F)
 		fs, ps := CallsTo(F, nFetch), CallsTo(F, nPush)
+		if len(ps) == 0 {
+			ps = c04IIFESites(F, nPush) // push inside an immediately invoked function literal
+		}
+		if len(fs) == 0 {
+			fs = c04IIFESites(F, nFetch)
+		}
 		if len(fs) == 0 || len(ps) == 0 {
 			// Fetch / Push sit in closures handed to a module helper: transfer(fetch, push, …).  The sequencing is the
 			// helper's: it calls its fetch parameter, then its push parameter, and closes the reader.
 			closureWith := func(name string) *ssa.Function {
 				var out *ssa.Function
 				n := 0
-				for _, a := range Anons(doCopy) {
+				for _, a := range c04Closures(doCopy) {
 					if k := len(CallsTo(a, name)); k == 1 {
 						out = a
 						n++
@@ -997,12 +1127,14 @@ func c04R4(c *Ctx) {
 				}
 				fi, pi := -1, -1
 				for i, a := range call.Common().Args {
-					if g, _ := c01FuncOfValue(a); g != nil {
-						if g == cf {
-							fi = i
-						}
-						if g == cp {
-							pi = i
+					for _, r := range Roots(a) {
+						if mc, isMC := r.(*ssa.MakeClosure); isMC {
+							if mc.Fn == ssa.Value(cf) {
+								fi = i
+							}
+							if mc.Fn == ssa.Value(cp) {
+								pi = i
+							}
 						}
 					}
 				}
@@ -1010,6 +1142,7 @@ func c04R4(c *Ctx) {
 					continue
 				}
 				F = h
+				xferViaHelper = append(xferViaHelper, call)
 				for _, hc := range Calls(h, func(string) bool { return true }) {
 					if hc.Common().IsInvoke() {
 						continue
@@ -1039,6 +1172,32 @@ func c04R4(c *Ctx) {
 				for _, call := range Calls(F, func(n string) bool { return n == "(io.Closer).Close" }) {
 					if al[call.Common().Value] {
 						closes = append(closes, call.(ssa.Instruction))
+					}
+				}
+				// a function literal of F, called in F, that closes the captured reader
+				for _, call := range Calls(F, func(string) bool { return true }) {
+					g := StaticCallee(call)
+					if g == nil || g.Parent() != F {
+						continue
+					}
+					for _, cc := range Calls(g, func(n string) bool { return n == "(io.Closer).Close" }) {
+						if srcs, okS := c01CarriedSources(c.P, cc.Common().Value); okS {
+							all := len(srcs) > 0
+							for _, sv := range srcs {
+								if !al[sv] {
+									all = false
+								}
+							}
+							okExit := true
+							for _, ret := range Returns(g) {
+								if !MustPass(ret, newCut().Instr(cc.(ssa.Instruction))) {
+									okExit = false
+								}
+							}
+							if all && okExit {
+								closes = append(closes, call.(ssa.Instruction))
+							}
+						}
 					}
 				}
 			}
